@@ -6,7 +6,7 @@
    no line holds another of str.splitlines' break characters. *)
 From Coq Require Import ZArith List Bool Lia.
 From Mistletoe Require Import Base.Sx Base.PyStr Base.PyText Gen.GenTables Gen.GenConfig Gen.GenEscapes Model.Fillers Model.Tree Model.CoreTokens Model.Block Model.Build
-     Model.DocLines Model.HtmlRenderer Model.Parser Proofs.PlainProse Proofs.Prose Proofs.ProseLines Proofs.ListLaw Proofs.FenceLaw Spec.Fragment Proofs.InertProse Proofs.FragmentP Proofs.FragmentDoc Proofs.EmphSimple Proofs.EmphSentence Proofs.RefSentence Proofs.LinkSentence Proofs.MixPhrases Proofs.CodeSpan Proofs.HardBreaks Proofs.BreakBlocks Proofs.StrikeSentence Proofs.EscSentence Proofs.ImageSentence Proofs.LeafSpans Proofs.OneInline Proofs.EmphPhrases Proofs.NestedEmph Proofs.TitleLink Proofs.AutoLinkSentence Proofs.AngleLink.
+     Model.DocLines Model.HtmlRenderer Model.Parser Proofs.PlainProse Proofs.Prose Proofs.ProseLines Proofs.ListLaw Proofs.FenceLaw Spec.Fragment Proofs.InertProse Proofs.FragmentP Proofs.FragmentDoc Proofs.EmphSimple Proofs.EmphSentence Proofs.RefSentence Proofs.LinkSentence Proofs.MixPhrases Proofs.CodeSpan Proofs.HardBreaks Proofs.BreakBlocks Proofs.StrikeSentence Proofs.EscSentence Proofs.ImageSentence Proofs.LeafSpans Proofs.OneInline Proofs.EmphPhrases Proofs.NestedEmph Proofs.TitleLink Proofs.AutoLinkSentence Proofs.AngleLink Proofs.LinkEmph.
 Import ListNotations.
 Local Open Scope Z_scope.
 
@@ -25,6 +25,7 @@ Fixpoint nest_html (o : hopts) (g : str) (ps : list phrase) (zz : str) : str :=
 Definition inl_html (o : hopts) (x : inl) : str :=
   match x with
   | IAuto c0 sc r => $"<a href=" ++ [34] ++ fill o html_autolink_target (c0 :: sc ++ 58 :: r) ++ [34] ++ $">" ++ escape_html_text o (c0 :: sc ++ 58 :: r) ++ $"</a>"
+  | ILinkE h ps z d => $"<a href=" ++ [34] ++ fill o html_link_target d ++ [34] ++ $">" ++ nest_html o h ps z ++ $"</a>"
   | ILinkA w c0 d => $"<a href=" ++ [34] ++ fill o html_link_target (c0 :: d) ++ [34] ++ $">" ++ escape_html_text o w ++ $"</a>"
   | ILinkT w d q tl =>
     $"<a href=" ++ [34] ++ fill o html_link_target d ++ [34] ++ (match tl with [] => [] | _ => $" title=" ++ [34] ++ fill o html_link_title tl ++ [34] end) ++ $">" ++ escape_html_text o w ++ $"</a>"
@@ -358,7 +359,7 @@ Proof.
     fold (serialize (flat_map (render o sup false) (raw_if post))). rewrite ser_raw_if.
     change (fill o GenEscapes.html_raw_text (c0 :: pre)) with (escape_html_text o (c0 :: pre)).
     set (P := escape_html_text o (c0 :: pre)). set (Q := escape_html_text o post).
-    destruct x as [w|c|w d|ch k h ps z|w d q tl|u0 usc ur|aw a0 ad]; cbn [inl_tok inl_html flat_map render]; unfold image_of, tlink_of, auto_of, alink_of, wrap; cbn [flat_map render ser_item app l_target l_title title_attr to_plain ser_attrs fst snd].
+    destruct x as [w|c|w d|ch k h ps z|w d q tl|u0 usc ur|aw a0 ad|eh eps ez ed]; cbn [inl_tok inl_html flat_map render]; unfold image_of, tlink_of, auto_of, alink_of, wrap; cbn [flat_map render ser_item app l_target l_title title_attr to_plain ser_attrs fst snd].
     - change (fill o GenEscapes.html_raw_text w) with (escape_html_text o w). set (W := escape_html_text o w). cbn [app]. rewrite ?app_nil_r, <- ?app_assoc. reflexivity.
     - change (fill o GenEscapes.html_raw_text [c]) with (escape_html_text o [c]). set (W := escape_html_text o [c]). rewrite ?app_nil_r, <- ?app_assoc. reflexivity.
     - set (A := fill0 html_plain_leaf w). set (D := fill o html_image_src d). cbn [app]. rewrite ?app_nil_r. repeat (rewrite <- ?app_assoc; cbn [app]). reflexivity.
@@ -371,7 +372,11 @@ Proof.
     - set (U := u0 :: usc ++ 58 :: ur). change (fill o GenEscapes.html_raw_text U) with (escape_html_text o U). set (W := escape_html_text o U). set (D := fill o html_autolink_target U).
       unfold wrap; cbn [ser_attrs flat_map ser_item fst snd app]; rewrite ?app_nil_r; repeat (rewrite <- ?app_assoc; cbn [app]); reflexivity.
     - change (fill o GenEscapes.html_raw_text aw) with (escape_html_text o aw). set (W := escape_html_text o aw). set (D := fill o html_link_target (a0 :: ad)).
-      unfold wrap; cbn [title_attr ser_attrs flat_map ser_item fst snd app]; rewrite ?app_nil_r; repeat (rewrite <- ?app_assoc; cbn [app]); reflexivity. }
+      unfold wrap; cbn [title_attr ser_attrs flat_map ser_item fst snd app]; rewrite ?app_nil_r; repeat (rewrite <- ?app_assoc; cbn [app]); reflexivity.
+    - set (D := fill o html_link_target ed).
+      assert (En : flat_map ser_item (flat_map (render o sup false) (nest_toks eh eps ez)) = nest_html o eh eps ez) by (apply (render_nest_toks o sup eps eh ez)).
+      unfold elink_of. cbn [render flat_map app l_target l_title title_attr]. unfold wrap; cbn [title_attr ser_attrs flat_map ser_item fst snd app]. rewrite ?app_nil_r, !flat_map_app, En.
+      set (NH := nest_html o eh eps ez). cbn [flat_map ser_item app]. rewrite ?app_nil_r. repeat (rewrite <- ?app_assoc; cbn [app]). reflexivity. }
   destruct sup.
   - cbn [render]. cbv iota. exact E.
   - cbn [render]. cbv iota. unfold wrap.
